@@ -156,11 +156,24 @@ check('C16', 'E2-world',
       'DESIGN.md section 7 C16')
 
 
+check('C18', 'E2-world',
+      'Seeded histories in which viewers (generic state-based Viewer; matplotlib histogram / scatter / image / profile viewers in the thorough '
+      'tier), attribute and dataset pickers and image viewer states live alongside the collection while it is mutated (datasets, groups, '
+      'components, labels), with hub delay windows, parties dropped without being closed (weak hub references), and crash-restart with the '
+      'viewers saved through a stub application shell; a mirror invariant (layers == given datasets still in the collection + their current '
+      'subsets, state.layers agrees, picker choices == filtered attributes, selection valid, image axes distinct axes of the reference '
+      'dataset) is checked at every quiescent step. Sampling, not proof.',
+      'The application shell that stores viewers is harness code modelled on glue-qt; layers are not removed one by one; a dataset removed and '
+      're-added inside one delay window may or may not stay in a viewer / picker (both accepted).',
+      'deterministic simulation: seeded history with delay windows, party death and crash-restart + mirror invariant',
+      'DESIGN.md section 7 C18')
+
+
 def na(pid, reason):
     NA[pid] = dict(property_id=pid, reason=reason)
 
 PENDING = 'check under construction in this build round (see DESIGN.md section 7); not claimed until its oracle is proven sound on the unchanged tree'
-for pid in ['C18']:
+for pid in []:
     na(pid, PENDING)
 na('C08', 'pure function of region parameters and points: no schedule, clock, fault, shared state or history for a simulator to vary (DESIGN.md section 8)')
 na('C09', 'pure translation roi -> subset state; nothing stateful or faulty involved (DESIGN.md section 8)')
